@@ -2,6 +2,8 @@ package core
 
 import (
 	"bytes"
+	"io"
+	"log"
 	"crypto/sha1"
 	"encoding/json"
 	"flag"
@@ -95,6 +97,7 @@ func worker(args []string) int {
 		fmt.Fprintln(os.Stderr, "unknown property", *prop)
 		return 2
 	}
+	log.SetOutput(io.Discard) // the library logs through the standard logger
 	c := newCtx()
 	c.Prop, c.Tier, c.Shard, c.NShards, c.Seed, c.Scratch = *prop, Tier(*tier), *shard, *n, *seed, *scratch
 	if *deadline > 0 {
